@@ -4,8 +4,8 @@ CONSTANTS
   MaxTerm = 1
   MaxProposals = 1
   MaxCrashes = 1
-  MaxDrops = 1
-  MaxDups = 1
+  MaxDrops = 0
+  MaxDups = 0
   MaxHeartbeats = 1
   MaxLog = 3
   MaxNet = 3
